@@ -729,3 +729,16 @@ func VerifSelectAndCount(sample, text string) (string, int) {
 	wc := stringutil.SelectWordCounter(sample)
 	return fmt.Sprintf("%T", wc), wc.Count(text)
 }
+
+// VerifPrevNextContext: current URL, folder URL and allowed prefix of the prev/next finder.
+func VerifPrevNextContext(pageURL *nurl.URL) (string, string, string, bool) {
+	return pagination.VerifPrevNextContext(pageURL)
+}
+
+// VerifPageDiff is the prev/next finder's getPageDiff.
+func VerifPageDiff(pageURL, linkHref string, skip int) (int, bool) {
+	return pagination.VerifPageDiff(pageURL, linkHref, skip)
+}
+
+// VerifInnerText is domutil.InnerText.
+func VerifInnerText(n *html.Node) string { return domutil.InnerText(n) }
